@@ -1,12 +1,16 @@
 import AtreeProofs.HeapSpec
 import AtreeProofs.ArrayInv
 import AtreeProofs.ArrayLemmas
+import AtreeProofs.Array.EffectsTop
 /-
   C09 — No leaked, dangling or doubly-owned slabs (container level, arrays).
   PROPERTY THEOREMS: the storage calls an array operation makes are a COMPLETE account of how its
   slab tree changed; emptying an array releases every auxiliary slab; no slab is owned twice and
   every child reference resolves inside the tree.  (Graph-level statement for whole storages: C20.
   Nested containers / inline <-> standalone transitions: World model, C10/C11.  Maps: see DESIGN.md.)
+
+  Proofs: `AtreeProofs/Array/Effects*.lean` (generic accounting `Acct`, the repair steps of an index
+  slab, induction over the depth, top level).
 -/
 namespace Atree.C09
 open Atree Gen
@@ -15,20 +19,64 @@ open Atree Gen
 def newEffects (c c' : Ctx) : List Eff := c'.eff.drop c.eff.length
 def newCreated (c c' : Ctx) : List SlabID := (c'.created.drop c.created.length).map (·.1)
 
+/-- `newEffects` / `newCreated` are what a run appended (`Log`) -/
+theorem newEffects_of_log {c c' : Ctx} {E : List Eff} {C : List (SlabID × Elem)} (h : Log c c' E C) :
+    c'.eff = c.eff ++ newEffects c c' ∧ newEffects c c' = E ∧ newCreated c c' = C.map (·.1) := by
+  have h1 : newEffects c c' = E := by
+    unfold newEffects; rw [h.eff]; exact List.drop_left
+  have h2 : newCreated c c' = C.map (·.1) := by
+    unfold newCreated; rw [h.created, List.drop_left]
+  exact ⟨by rw [h1]; exact h.eff, h1, h2⟩
+
+/-- existential form: the log is extended by some `E` that is a complete account -/
+theorem effects_of_acct {a a' : Arr} {c c' : Ctx} {E : List Eff} {C : List (SlabID × Elem)}
+    (hlog : Log c c' E C)
+    (hacct : Acct c.ctr (ATree.slabs a.d a.root) (ATree.slabs a'.d a'.root) E (C.map (·.1)))
+    (hnd : (ATree.slabIds a.d a.root).Nodup) (hid : a'.rootID = a.rootID) (hty : a'.ty = a.ty) :
+    c'.eff = c.eff ++ newEffects c c' ∧ EffectsComplete a a' (newEffects c c') (newCreated c c') := by
+  obtain ⟨h1, h2, h3⟩ := newEffects_of_log hlog
+  refine ⟨h1, ?_⟩
+  rw [h2, h3]
+  exact effectsComplete_of_acct hacct hnd hid hty
+
 theorem insert_effects_complete (T : Nat) (hT : legalThreshold T = true) (a : Arr) (c : Ctx) (i : Nat) (v : Elem)
     (hv : ValueOk v) (h : ArrInv T a c.ctr) (a' : Arr) (c' : Ctx) (hr : a.insert T i v c = .ok (a', c')) :
     c'.eff = c.eff ++ newEffects c c' ∧ EffectsComplete a a' (newEffects c c') (newCreated c c') := by
-  sorry
+  obtain ⟨E, C, hlog, hacct⟩ := arr_insert_acct hT a c i v hv h a' c' hr
+  have hne : a.count ≠ maxArrayElementCount := by
+    intro heq
+    unfold Arr.insert at hr
+    rw [if_pos heq] at hr
+    cases hr
+  have hlt : a.count < maxArrayElementCount := by have := h.count_lt; omega
+  rcases Nat.lt_or_ge a.toList.length i with hi | hi
+  · rw [arr_insert_err a c i v h hne hi] at hr; cases hr
+  · obtain ⟨a2, c2, heq, _, _, hid, hty⟩ := arr_insert_ok hT a c i v hv h hlt hi
+    rw [heq] at hr
+    cases hr
+    exact effects_of_acct hlog hacct h.ids.1 hid hty
 
 theorem set_effects_complete (T : Nat) (hT : legalThreshold T = true) (a : Arr) (c : Ctx) (i : Nat) (v : Elem)
     (hv : ValueOk v) (h : ArrInv T a c.ctr) (old : Elem) (a' : Arr) (c' : Ctx) (hr : a.set T i v c = .ok (old, a', c')) :
     c'.eff = c.eff ++ newEffects c c' ∧ EffectsComplete a a' (newEffects c c') (newCreated c c') := by
-  sorry
+  obtain ⟨E, C, hlog, hacct⟩ := arr_set_acct hT a c i v hv h old a' c' hr
+  rcases Nat.lt_or_ge i a.toList.length with hi | hi
+  · obtain ⟨a2, c2, heq, _, _, hid, hty⟩ := arr_set_ok hT a c i v hv h hi
+    rw [heq] at hr
+    cases hr
+    exact effects_of_acct hlog hacct h.ids.1 hid hty
+  · rw [arr_set_err a c i v h hi] at hr; cases hr
 
 theorem remove_effects_complete (T : Nat) (hT : legalThreshold T = true) (a : Arr) (c : Ctx) (i : Nat)
     (h : ArrInv T a c.ctr) (old : Elem) (a' : Arr) (c' : Ctx) (hr : a.remove T i c = .ok (old, a', c')) :
     c'.eff = c.eff ++ newEffects c c' ∧ EffectsComplete a a' (newEffects c c') (newCreated c c') := by
-  sorry
+  obtain ⟨E, C, hlog, hacct⟩ := arr_remove_acct hT a c i h old a' c' hr
+  rcases Nat.lt_or_ge i a.toList.length with hi | hi
+  · obtain ⟨a2, c2, heq, _, _, hid, hty⟩ := arr_remove_ok hT a c i h hi
+    rw [heq] at hr
+    cases hr
+    exact effects_of_acct hlog hacct h.ids.1 hid hty
+  · rw [arr_remove_err a c i h hi] at hr; cases hr
 
 /-- Emptying an array releases every slab except the root, which is rewritten. -/
 theorem pop_releases_all (T : Nat) (hT : legalThreshold T = true) (a : Arr) (c : Ctx) (h : ArrInv T a c.ctr) :
@@ -36,7 +84,51 @@ theorem pop_releases_all (T : Nat) (hT : legalThreshold T = true) (a : Arr) (c :
     EffectsComplete a r.2.1 (newEffects c r.2.2) [] ∧
     ATree.slabIds r.2.1.d r.2.1.root = [a.rootID] ∧
     ∀ id ∈ ATree.slabIds a.d a.root, id ≠ a.rootID → lastAction (newEffects c r.2.2) id = some false := by
-  sorry
+  intro r
+  have _ := hT
+  obtain ⟨E, heff, hE1, hE2⟩ := arr_popIterate_eff a c h.standalone
+  have hnew : newEffects c r.2.2 = E ++ [.store a.rootID] := by
+    unfold newEffects
+    show (a.popIterate c).2.2.eff.drop _ = _
+    rw [heff]; exact List.drop_left
+  have hids' : ATree.slabIds r.2.1.d r.2.1.root = [a.rootID] := rfl
+  have hrem : ∀ e ∈ E, ∃ i, e = Eff.remove i := fun e he => by
+    obtain ⟨id, _, rfl⟩ := hE1 e he; exact ⟨id, rfl⟩
+  have hla : ∀ id, lastAction (newEffects c r.2.2) id
+      = if a.rootID = id then some true else lastAction E id := by
+    intro id; rw [hnew]; exact lastAction_concat_store E a.rootID id
+  have hsub : ∀ id ∈ ATree.slabIds a.d a.root, id ≠ a.rootID → id ∈ subIds a.d a.root := by
+    intro id hid hne
+    rw [slabIds_eq] at hid
+    rcases List.mem_cons.1 hid with h1 | h1
+    · exact absurd h1 hne
+    · exact h1
+  have hgone : ∀ id ∈ ATree.slabIds a.d a.root, id ≠ a.rootID →
+      lastAction (newEffects c r.2.2) id = some false := by
+    intro id hid hne
+    rw [hla, if_neg (fun h => hne h.symm)]
+    exact (lastAction_only_removes E hrem id).1.2 (hE2 id (hsub id hid hne))
+  refine ⟨⟨?_, ?_, ?_, ?_⟩, hids', hgone⟩
+  · intro id hsome _
+    rw [slabAt_isSome, hids', List.mem_singleton] at hsome
+    rw [hla, if_pos hsome.symm]
+  · intro id h1 h2
+    rw [slabAt_isSome] at h1
+    rw [slabAt_isNone, hids', List.mem_singleton] at h2
+    exact hgone id h1 h2
+  · intro id h1
+    left
+    rw [slabAt_isSome, hids', List.mem_singleton]
+    rw [hla] at h1
+    split at h1
+    · rename_i heq; exact heq.symm
+    · exact absurd h1 (lastAction_only_removes E hrem id).2
+  · intro id h1
+    rw [slabAt_isNone, hids', List.mem_singleton]
+    rw [hla] at h1
+    split at h1
+    · cases h1
+    · rename_i hne; exact fun h => hne h.symm
 
 /-- Inside a valid tree no slab is owned twice, every child header refers to a slab of the tree
     owned by the same address, and every slab except the root is referenced by exactly one header. -/
@@ -44,12 +136,105 @@ theorem tree_ownership (T : Nat) (hT : legalThreshold T = true) (a : Arr) (ctr :
     (ATree.slabIds a.d a.root).Nodup ∧
     (∀ id ∈ ATree.slabIds a.d a.root, id.addr = a.addr) ∧
     (AList.keys (ATree.slabs a.d a.root) = ATree.slabIds a.d a.root) := by
-  sorry
+  have _ := hT
+  exact ⟨h.ids.1, fun id hid => (h.ids.2 id hid).1, keys_slabs a.d a.root⟩
 
 /-- Slab IDs handed out during an operation are fresh: they were not in the tree before. -/
 theorem allocated_ids_fresh (T : Nat) (hT : legalThreshold T = true) (a : Arr) (c : Ctx) (i : Nat) (v : Elem)
     (hv : ValueOk v) (h : ArrInv T a c.ctr) (a' : Arr) (c' : Ctx) (hr : a.insert T i v c = .ok (a', c')) :
     ∀ addr id, Eff.alloc addr id ∈ newEffects c c' → id ∉ ATree.slabIds a.d a.root ∧ c.ctr < id.idx ∧ id.idx ≤ c'.ctr := by
-  sorry
+  obtain ⟨E, C, hlog, _⟩ := arr_insert_acct hT a c i v hv h a' c' hr
+  obtain ⟨_, h2, _⟩ := newEffects_of_log hlog
+  rw [h2]
+  intro addr id hmem
+  obtain ⟨h3, h4⟩ := hlog.allocs addr id hmem
+  refine ⟨fun hin => ?_, h3, h4⟩
+  have := (h.ids.2 id hin).2.2
+  omega
+
+/-! ### Non-vacuity
+
+Concrete runs of the model on `Atree.Example.arr4` (T = 256; a root index slab 1 over the data
+slabs 2 and 3): what `newEffects` is (by `decide`), and `EffectsComplete` for these runs, obtained
+from the theorems above (their hypotheses are satisfiable: `arr4_inv`). -/
+section NonVacuity
+open Atree.Example
+
+/-- the context after building `arr4` (three IDs allocated), with an empty log -/
+def c3 : Ctx := ⟨3, [], []⟩
+
+def okArr (r : Except AErr (Arr × Ctx)) : Arr := match r with | .ok (a, _) => a | .error _ => arr4
+def okCtx (r : Except AErr (Arr × Ctx)) : Ctx := match r with | .ok (_, c) => c | .error _ => c3
+def okArr' (r : Except AErr (Elem × Arr × Ctx)) : Arr := match r with | .ok (_, a, _) => a | .error _ => arr4
+def okCtx' (r : Except AErr (Elem × Arr × Ctx)) : Ctx := match r with | .ok (_, _, c) => c | .error _ => c3
+
+/-- a fifth 100-byte element: the left leaf grows to 321 bytes, no restructuring -/
+def arr5 : Arr := okArr (arr4.insert T0 1 (elem 9) c3)
+def c5 : Ctx := okCtx (arr4.insert T0 1 (elem 9) c3)
+theorem step5 : arr4.insert T0 1 (elem 9) c3 = .ok (arr5, c5) := by rfl
+theorem arr5_inv : ArrInv T0 arr5 c5.ctr := by
+  obtain ⟨a', c', h1, h2, _⟩ := arr_insert_ok legal arr4 c3 1 (elem 9) (value_ok 9) arr4_inv
+    (by decide) (by decide)
+  rw [step5] at h1; cases h1; exact h2
+
+example : newEffects c3 c5 = [.store ⟨1, 2⟩, .store ⟨1, 1⟩] := by decide
+example : EffectsComplete arr4 arr5 (newEffects c3 c5) (newCreated c3 c5) :=
+  (insert_effects_complete T0 legal arr4 c3 1 (elem 9) (value_ok 9) arr4_inv arr5 c5 step5).2
+
+/-- a sixth element makes the left leaf (421 > 384 bytes) split: slab 4 is allocated, the two
+    halves and the root index slab are stored -/
+def arr6 : Arr := okArr (arr5.insert T0 1 (elem 8) c5)
+def c6 : Ctx := okCtx (arr5.insert T0 1 (elem 8) c5)
+theorem step6 : arr5.insert T0 1 (elem 8) c5 = .ok (arr6, c6) := by rfl
+
+example : ATree.slabIds arr5.d arr5.root = [⟨1, 1⟩, ⟨1, 2⟩, ⟨1, 3⟩] := by decide
+example : ATree.slabIds arr6.d arr6.root = [⟨1, 1⟩, ⟨1, 2⟩, ⟨1, 4⟩, ⟨1, 3⟩] := by decide
+example : newEffects c5 c6
+    = [.store ⟨1, 2⟩, .alloc 1 ⟨1, 4⟩, .store ⟨1, 2⟩, .store ⟨1, 4⟩, .store ⟨1, 1⟩] := by decide
+example : newCreated c5 c6 = [] := by decide
+example : EffectsComplete arr5 arr6 (newEffects c5 c6) (newCreated c5 c6) :=
+  (insert_effects_complete T0 legal arr5 c5 1 (elem 8) (value_ok 8) arr5_inv arr6 c6 step6).2
+example : ∀ addr id, Eff.alloc addr id ∈ newEffects c5 c6 →
+    id ∉ ATree.slabIds arr5.d arr5.root ∧ c5.ctr < id.idx ∧ id.idx ≤ c6.ctr :=
+  allocated_ids_fresh T0 legal arr5 c5 1 (elem 8) (value_ok 8) arr5_inv arr6 c6 step6
+/-- the net effect, slab by slab -/
+example : [⟨1, 1⟩, ⟨1, 2⟩, ⟨1, 3⟩, ⟨1, 4⟩].map (lastAction (newEffects c5 c6))
+    = [some true, some true, none, some true] := by decide
+
+/-- removing the first element of `arr4` makes the left leaf underflow (121 < 128 bytes): it is
+    merged with its right sibling (slab 3 removed), and the root index slab, left with a single
+    child, is replaced by that child (slab 2 removed, the root ID 1 now holds the data slab) -/
+def arr3 : Arr := okArr' (arr4.remove T0 0 c3)
+def c3' : Ctx := okCtx' (arr4.remove T0 0 c3)
+theorem stepR : arr4.remove T0 0 c3 = .ok (elem 0, arr3, c3') := by rfl
+
+example : arr3.d = 0 ∧ ATree.slabIds arr3.d arr3.root = [⟨1, 1⟩] := by decide
+example : newEffects c3 c3'
+    = [.store ⟨1, 2⟩, .store ⟨1, 2⟩, .store ⟨1, 1⟩, .remove ⟨1, 3⟩, .store ⟨1, 1⟩, .store ⟨1, 1⟩,
+       .remove ⟨1, 2⟩] := by decide
+example : EffectsComplete arr4 arr3 (newEffects c3 c3') (newCreated c3 c3') :=
+  (remove_effects_complete T0 legal arr4 c3 0 arr4_inv (elem 0) arr3 c3' stepR).2
+example : [⟨1, 1⟩, ⟨1, 2⟩, ⟨1, 3⟩].map (lastAction (newEffects c3 c3'))
+    = [some true, some false, some false] := by decide
+
+/-- overwriting with a value too large to inline creates a large-value slab (ID 4): it is stored,
+    is not a slab of the tree, and is accounted for by `newCreated` -/
+def arrS : Arr := okArr' (arr4.set T0 3 ⟨5000, .val 7⟩ c3)
+def cS : Ctx := okCtx' (arr4.set T0 3 ⟨5000, .val 7⟩ c3)
+theorem stepS : arr4.set T0 3 ⟨5000, .val 7⟩ c3 = .ok (elem 3, arrS, cS) := by rfl
+example : newEffects c3 cS = [.alloc 1 ⟨1, 4⟩, .store ⟨1, 4⟩, .store ⟨1, 3⟩, .store ⟨1, 1⟩] := by decide
+example : newCreated c3 cS = [⟨1, 4⟩] := by decide
+example : EffectsComplete arr4 arrS (newEffects c3 cS) (newCreated c3 cS) :=
+  (set_effects_complete T0 legal arr4 c3 3 ⟨5000, .val 7⟩ ⟨by decide, 7, rfl⟩ arr4_inv (elem 3) arrS cS stepS).2
+
+/-- emptying `arr4`: both leaves are removed, the root is rewritten -/
+example : newEffects c3 (arr4.popIterate c3).2.2 = [.remove ⟨1, 3⟩, .remove ⟨1, 2⟩, .store ⟨1, 1⟩] := by
+  decide
+example : EffectsComplete arr4 (arr4.popIterate c3).2.1 (newEffects c3 (arr4.popIterate c3).2.2) [] :=
+  (pop_releases_all T0 legal arr4 c3 arr4_inv).1
+
+example : (ATree.slabIds arr4.d arr4.root).Nodup := (tree_ownership T0 legal arr4 3 arr4_inv).1
+
+end NonVacuity
 
 end Atree.C09
